@@ -77,8 +77,11 @@ func (s *Slots) Exec(it core.Item) bool {
 		if it.C != 0 {
 			// will: C = 1 + qos + 3*retain, topic in T after '|', payload tag = 900000+conn idx
 			wq := (it.C - 1) % 3
-			wr := (it.C-1)/3 == 1
+			wr := (it.C-1)/3%2 == 1
 			c.Will = &packet.Message{Topic: "will/" + fmt.Sprint(it.P), Payload: MsgPayload(900000+np.Idx, 0), QOS: packet.QOS(wq), Retain: wr}
+			if it.C > 6 {
+				c.Will.Payload = nil // a will with an empty payload (C = 7..12)
+			}
 			if len(it.L) > 0 {
 				c.Will.Topic = Topics[it.L[0]%len(Topics)]
 			}
@@ -127,6 +130,9 @@ func (s *Slots) Exec(it core.Item) bool {
 		pb.Message.Payload = MsgPayload(it.D, it.C)
 		if it.B == 2 { // retained with empty payload: clears
 			pb.Message.Retain = true
+			pb.Message.Payload = nil
+		}
+		if it.B == 3 { // empty payload without the flag: an ordinary message
 			pb.Message.Payload = nil
 		}
 		if pb.Message.QOS > 0 {
